@@ -92,11 +92,45 @@ UNITS = {
         ],
         "contracts": ["contracts/cors.vc", "contracts/header.vc"],
     },
+    "server": {
+        "uses": [],
+        "preludes": ["shims/core.rs", "shims/bytes.rs", "shims/env.rs", "shims/io.rs"],
+        "specs": ["contracts/spec/hv.rs", "contracts/spec/http.rs", "contracts/spec/cors.rs", "contracts/spec/headers.rs", "contracts/spec/server.rs"],
+        "sources": [
+            SYMBOL_SRC,
+            ("src/http/mod.rs", ["struct:Version", "const:VERSION"]),
+            ("src/mime_type/mod.rs", ["struct:MimeType", "consts:MimeType"]),
+            ("src/range/mod.rs", ["struct:Range", "struct:ContentRange", "consts:Range"]),
+            ("src/request/mod.rs", ["struct:Request", "struct:Method", "const:METHOD", "fn:Request::parse:assume"]),
+            ("src/entry_point/mod.rs", ["struct:Config", "consts:Config"]),
+            ("src/cors/mod.rs", ["struct:Cors", "consts:Cors"]),
+            ("src/client_hint/mod.rs", ["struct:ClientHint", "consts:ClientHint"]),
+            ("src/header/mod.rs", ["struct:Header", "consts:Header", "fn:Header::get_header_list:assume"]),
+            ("src/response/mod.rs", ["struct:Response", "struct:StatusCodeReasonPhrase", "struct:ResponseStatusCodeReasonPhrase",
+                                     "const:STATUS_CODE_REASON_PHRASE", "fn:Response::get_response", "fn:Response::generate_response:assume"]),
+            ("src/application/mod.rs", ["trait:Application"]),
+            ("src/log/mod.rs", ["struct:Log", "fn:Log::request_response:assume"]),
+            ("src/server/mod.rs", ["struct:Server", "struct:ConnectionInfo", "struct:Address", "fn:Server::bad_request_response", "fn:Server::process"]),
+        ],
+        "contracts": ["contracts/request.vc", "contracts/header.vc", "contracts/response.vc", "contracts/server.vc"],
+    },
 }
 for k, v in UNITS.items():
     v["name"] = k
 
 PROPS = {
+    "C05": {
+        "units": ["response_gen", "server", "header_list", "cors"],
+        "level": "proof",
+        "falsifier": ["response"],
+        "samples": [
+            "Response::generate_response / postcondition / res@ == response_bytes(...)  (status-line CRLF *(name ': ' value CRLF) CRLF body; Content-Length == dec(body.len()); no body for HEAD/OPTIONS)",
+            "Server::process / assertion / one_response(sent0, stream.sent())  at every exit that follows a successful write_all (arbitrary Read+Write transport, arbitrary Application)",
+        ],
+        "assumptions": [
+            "std::io::Write::write_all delivers the whole buffer or fails (trait contract in shims/io.rs)",
+        ],
+    },
     "C11": {
         "units": ["cors"],
         "level": "proof",
